@@ -210,7 +210,11 @@ def generic_probe(val, origin, with_origin):
     except Exception as e:
         return ("generic-to_text-raised:" + core.exc_sig(e), repr(e))
     try:
-        if with_origin:
+        if with_origin == "abs":
+            # an origin is supplied but relativization is off: every name stays absolute, as for the ordinary text form
+            rd2 = dns.rdata.from_text(val.rdclass, val.rdtype, t, o, False)
+            expect = GR.build(normalized(val, origin, "full"))
+        elif with_origin:
             rd2 = dns.rdata.from_text(val.rdclass, val.rdtype, t, o, True)
             expect = GR.build(normalized(val, origin, "norm"))
         else:
@@ -260,14 +264,14 @@ def check_value(ctx, val, origin):
                           dict(case, pres=pres[0], chunks=chunks, wrap=wrap))
             break
     # RFC 3597 generic form of known and unknown types
-    for with_origin in ((False, True) if origin is not None else (False,)):
+    for with_origin in ((False, True, "abs") if origin is not None else (False,)):
         ctx.count("evaluations")
         ctx.count("mon.generic_roundtrip")
         res = generic_probe(val, origin, with_origin)
         if res is not None:
             kind, detail = res
             names_under = any(RN.is_subdomain(n.labels if n.labels and n.labels[-1] == b"" else n.labels + tuple(origin), tuple(origin)) for n in val.names()) if origin else False
-            ctx.violation(f"text-rt:{t}:{kind}:{'origin' if with_origin else 'noorigin'}:{'name-under-origin' if names_under else 'no-name-under-origin'}",
+            ctx.violation(f"text-rt:{t}:{kind}:{'origin-not-relativized' if with_origin == 'abs' else 'origin' if with_origin else 'noorigin'}:{'name-under-origin' if names_under else 'no-name-under-origin'}",
                           f"{describe(val)} origin={origin!r}: {detail}", dict(case, generic=True, with_origin=with_origin))
 
 
